@@ -5,7 +5,8 @@ The edits: (1) a builtin println of the receiver as first statement of every met
 first statement of every function (go/ssa then spills results through a local and adds a recover block), (3) a dead
 branch `if false { panic(..) }`, (4) an unused unexported field and a harmless method on every struct of package ast, (5) other spellings of comparisons in
 all packages at once (len(x) > 0 as != 0, == 0 as < 1, nil on the left, !(err == nil)), (6) an error built into a local
-before it is returned.
+before it is returned, (7) every method of a package with a simple signature split into a one-line wrapper and an
+implementation of another name (the loader of the checker makes pure delegation transparent).
 Usage: benign_sweep.py [-j N] [--rules R1,R2] [--json out.json]   exit 1 if any rule reports anything."""
 import re, json, glob, os, subprocess, sys, tempfile, concurrent.futures as cf
 HERE = os.path.dirname(os.path.dirname(os.path.abspath(__file__)))
@@ -46,6 +47,22 @@ def fields_and_methods():
 
 RULES = 'all'
 
+def delegation(pk):
+    ov = {}
+    for f in files(pk):
+        out = []
+        for l in open(f).read().split('\n'):
+            m = re.match(r'^func \((\w+) (\*?\w+)\) (\w+)\(([^()]*)\) (\(?[^{()]*\)?) ?\{$', l)
+            if m and 'func' not in m.group(4) and '...' not in m.group(4) and m.group(5).strip() != '' and not re.match(r'^\(\w+ ', m.group(5).strip()):
+                recv, rt, name, params, res = m.groups()
+                names = [part.strip().split()[0] for part in params.split(',') if part.strip()]
+                out.append('func (%s %s) %s(%s) %s {\n\treturn %s.%sImpl(%s)\n}\n' % (recv, rt, name, params, res.strip(), recv, name, ', '.join(names)))
+                out.append('func (%s %s) %sImpl(%s) %s {' % (recv, rt, name, params, res.strip()))
+            else:
+                out.append(l)
+        ov[f] = '\n'.join(out)
+    return ov
+
 def run(job):
     name, ov = job
     with tempfile.NamedTemporaryFile('w', suffix='.json', delete=False) as t:
@@ -70,6 +87,8 @@ def main():
         jobs.append(('empty defer / ' + pk, first_stmt(pk, 'defer func() {}()')))
         jobs.append(('dead branch / ' + pk, first_stmt(pk, 'if false { panic("never") }')))
     jobs.append(('unused field and method / ast', fields_and_methods()))
+    for pk in PKGS:
+        jobs.append(('wrapper + Impl for every method / ' + pk, delegation(pk)))
     for name, pat, rep in [('len(x) > 0 as len(x) != 0', r'len\(([^()]+)\) > 0', r'len(\1) != 0'), ('len(x) == 0 as len(x) < 1', r'len\(([^()]+)\) == 0', r'len(\1) < 1'),
                            ('x != nil as nil != x', r'(\b[\w.]+) != nil\b', r'nil != \1'), ('x == nil as nil == x', r'(\b[\w.]+) == nil\b', r'nil == \1'),
                            ('if err != nil as if !(err == nil)', r'if err != nil \{', r'if !(err == nil) {'),
